@@ -62,13 +62,17 @@ func replyBytes(b nBeh) []byte {
 	return []byte(fmt.Sprintf("REPLY:%d:not-a-kerberos-message", b.Arg))
 }
 
+// Ports are handed out from a private counter below the ephemeral range: a "refusing" endpoint is a closed port, and
+// a port chosen by the OS could be given to another concurrently running case's listener in the meantime.
+var portCounter int32
+
 func startKDC(idx int, bu, bt nBeh, log *[]attempt, mu *sync.Mutex) (*fakeKDC, error) {
-	for try := 0; try < 50; try++ {
-		l, err := net.ListenTCP("tcp", &net.TCPAddr{IP: net.IPv4(127, 0, 0, 1)})
+	for try := 0; try < 200; try++ {
+		port := 20000 + int(atomic.AddInt32(&portCounter, 1)%10000)
+		l, err := net.ListenTCP("tcp", &net.TCPAddr{IP: net.IPv4(127, 0, 0, 1), Port: port})
 		if err != nil {
-			return nil, err
+			continue
 		}
-		port := l.Addr().(*net.TCPAddr).Port
 		u, err := net.ListenUDP("udp", &net.UDPAddr{IP: net.IPv4(127, 0, 0, 1), Port: port})
 		if err != nil {
 			l.Close()
